@@ -704,6 +704,23 @@ class CompositeProperty(
 
         return populate
 
+    def merge(
+        self,
+        session: Any,
+        source_state: InstanceState[Any],
+        source_dict: _InstanceDict,
+        dest_state: InstanceState[Any],
+        dest_dict: _InstanceDict,
+        load: bool,
+        _recursive: Dict[Any, object],
+        _resolve_conflict_map: Dict[Any, object],
+    ) -> None:
+        # the column attributes are merged on their own; discard the
+        # composite object cached on the destination (created when it was
+        # loaded) so that it is re-created from the merged column values
+        # instead of staying stale until the next flush.
+        dest_dict.pop(self.key, None)
+
     def get_history(
         self,
         state: InstanceState[Any],
